@@ -238,7 +238,11 @@ def run_fls_family(case, res):
     lt = eskilson_log_times()
     sel = lt[::3] + [lt[-1]]
     n = len(coords)
-    for k, (H, D, rb) in enumerate(case["sequence"]):
+    for k, req in enumerate(case["sequence"]):
+        H, D, rb = req[:3]
+        if len(req) > 3:
+            m._soil.k = req[3]  # a sweep over ground conductivities that re-uses one Soil object
+            alpha = m._soil.k / m._soil.rhoCp
         res["evals"] += 1
         gf = calc_g_func_for_multiple_lengths(5.0 if n > 1 else rb, [H], rb, D, 0.3, m.pipe_type, sel, coords, m._fluid, m._pipe, m._grout, m._soil, boundary="UHTR")
         got = [float(v) for v in gf.g_lts[H]]
@@ -307,7 +311,7 @@ def main(run: core.Run, only=None):
             fl.append({"family": "fls", "field": f, "H": 100.0, "D": 2.0, "rb": 0.075, "stride": 3, "shift": shift})
     run.drive(fl, family="fls-anchor")
     ff = [{"family": "fls_family", "field": f, "sequence": sq} for f in ([["rect", 2, 2, 5.0], ["rect", 1, 1, 5.0]] + ([] if quick else [["L", 3, 3, 6.0], ["rect", 2, 5, 5.0]]))
-          for sq in ([[100.0, 2.0, 0.075], [100.0, 8.0, 0.075], [100.0, 2.0, 0.075]], [[60.0, 1.0, 0.055], [60.0, 1.0, 0.075], [135.0, 1.0, 0.075], [60.0, 4.0, 0.055]])]
+          for sq in ([[100.0, 2.0, 0.075], [100.0, 8.0, 0.075], [100.0, 2.0, 0.075]], [[100.0, 2.0, 0.075], [100.0, 2.0, 0.075, 3.1], [100.0, 2.0, 0.075, 1.2]], [[60.0, 1.0, 0.055], [60.0, 1.0, 0.075], [135.0, 1.0, 0.075], [60.0, 4.0, 0.055]])]
     run.drive(ff, family="fls-through-the-family-routine")
     return run.finish(
         rule="join: H x soil lattice through the real grab_g_function; interpolation: all 31 subsets of 5 stored heights x each stored "
